@@ -138,3 +138,9 @@ package model
 //@ func NewOutput(typeName, identifier) (o)
 //@   pure
 //@   ensures [fields] o.Type == typeName && o.Identifier == identifier
+
+// C20: the query commands print the label of every node of the list they computed
+//@ func PrintSortedLabels(nodes) ()
+//@   before_call PrintSorted#1 [every_node_label_is_printed] len(arg1) == len(nodes) && (forall i int :: {arg1[i]} 0 <= i && i < len(nodes) ==> arg1[i] == labelOf(nodes[i]))
+//@ loop #1
+//@   invariant [labels_so_far] len(labels) == len(nodes) && (forall i int :: {labels[i]} 0 <= i && i <= rangeindex ==> labels[i] == labelOf(nodes[i]))
